@@ -1035,7 +1035,7 @@ namespace this_thread {
         vrf::pre(vrf::T_SLEEP, nullptr);
         if (vrf::rt.engine.load(std::memory_order_relaxed) == vrf::E_SERIAL && c.vtid >= 0) return;  // virtual time
         auto ns = std::chrono::duration_cast<std::chrono::nanoseconds>(d).count();
-        if (vrf::rt.engine.load(std::memory_order_relaxed) != vrf::E_OFF && ns > 2000000) ns = 2000000;  // cap at 2 ms
+        if (ns > 2000000) ns = 2000000;  // the library's back-off sleeps are capped at 2 ms (no property depends on their length)
         if (ns > 0) {
             struct timespec ts = {static_cast<time_t>(ns / 1000000000LL), static_cast<long>(ns % 1000000000LL)};
             nanosleep(&ts, nullptr);
